@@ -98,11 +98,8 @@ func runC19(c *core.Ctx) {
 			if cal == nil {
 				return false
 			}
-			switch cal.Name() {
-			case "verifyCompatibility", "inferSchema", "inferGoType":
-				return core.FuncPkg(cal) == core.FuncPkg(fn)
-			}
-			return false
+			// by role: the compatibility check (Go type and schema type in) or one of the two inference directions
+			return core.FuncPkg(cal) == core.FuncPkg(fn) && isTypeBridge(cal) && cal != fn && !token.IsExported(cal.Name())
 		}
 		for _, ret := range core.Returns(fn) {
 			path, reached := core.Reach(fn, nil, isTarget(ret), nil, isCheck)
@@ -129,13 +126,33 @@ func runC19(c *core.Ctx) {
 			}
 			n++
 			recv, arg := ci.Common().Args[0], ci.Common().Args[1]
-			edges := core.BoolEdgesWhere(fn, func(v ssa.Value) bool {
+			isOvf := func(v ssa.Value) bool {
 				oc, ok := v.(*ssa.Call)
 				if !ok || !core.IsMethod(oc, "reflect", "Value", ovf) {
 					return false
 				}
 				return sameValueShallow(oc.Call.Args[0], recv) && sameValueShallow(oc.Call.Args[1], arg)
-			}, false)
+			}
+			// the test's result may be kept in a boolean before it is branched on (overflows := ...; if overflows {..}):
+			// a phi of boolean values one of which is the matching test counts as that test
+			var viaPhi func(v ssa.Value, seen map[ssa.Value]bool) bool
+			viaPhi = func(v ssa.Value, seen map[ssa.Value]bool) bool {
+				if isOvf(v) {
+					return true
+				}
+				phi, ok := v.(*ssa.Phi)
+				if !ok || seen[v] {
+					return false
+				}
+				seen[v] = true
+				for _, e := range phi.Edges {
+					if viaPhi(e, seen) {
+						return true
+					}
+				}
+				return false
+			}
+			edges := core.BoolEdgesWhere(fn, func(v ssa.Value) bool { return viaPhi(v, map[ssa.Value]bool{}) }, false)
 			path, reached := core.Reach(fn, nil, isTarget(ci), edges, nil)
 			c.Check(len(edges) > 0 && !reached, fmt.Sprintf("%s#%s%d", core.FuncKey(fn), ci.Common().StaticCallee().Name(), n), p.Pos(ci.Pos()), "guarded by "+ovf, "an integer is stored into a Go value of possibly narrower width without the matching "+ovf+" test: out-of-range data is silently truncated", p.Witness(path)...)
 		}
